@@ -11,6 +11,7 @@ from harness.common import Blob, write_tree
 from harness.props import creation as cr
 
 B = 16384
+METADIR = ["metas"]
 FNAMES = ["a", "b", "x.bin", "data", "é", "a b", "f"]
 DNAMES = ["d", "e", "sub", "ü"]
 
@@ -48,6 +49,8 @@ def gen_torrent(rng, tag, tier, version=None, allow_dup_names=True):
         if all(len(b) == 0 for _, b in files):
             files[0] = (files[0][0], Blob.rand(5, pl + 1))
     name = ("t" + tag) if not single else files[0][0]
+    if not single and rng.random() < 0.12:
+        files = [(name + "/" + p, b) for p, b in files]      # Album/Album/...
     t = {"name": name, "files": [(p, b.token()) for p, b in files], "pl": pl,
          "version": version, "single": single,
          "source": rng.choice(["own", "own", "ref"])}
@@ -71,7 +74,7 @@ def write_metafile(box, t, idx):
     else:
         write_tree(os.path.join(stage, t["name"]), [(p, b.bytes()) for p, b in files])
     root = os.path.join(stage, t["name"])
-    mdir = os.path.join(box, "metas")
+    mdir = os.path.join(box, METADIR[0])
     os.makedirs(mdir, exist_ok=True)
     mpath = os.path.join(mdir, f"m{idx}.torrent")
     if t["source"] == "own":
